@@ -59,6 +59,7 @@ def case_gen(draw, files=True):
         case['open_obj'] = draw(st.sampled_from([None, None, 'plain', 'short']))
         case['twin'] = draw(st.integers(0, 3)) == 0
         case['rewrite'] = draw(st.integers(0, 3)) == 0
+        case['skip'] = draw(st.sampled_from([None, 0, 1, 2]))
         case['encoding'] = draw(st.sampled_from(['utf-8', 'utf-8', 'utf-16', 'utf-32']))
         case['bigitem'] = draw(st.sampled_from([0, 0, 0, 66000, 140000]))
     return case
@@ -219,6 +220,14 @@ def check_files(case):
         r = drive.collect(rjson.load_from_file(f, compression=comp, encoding=enc, **kw))
         H.require_clean(r, 'load_from_file', **ctx)
         compare(items, r.items, ctx)
+        if case.get('skip') is not None and not case['open_obj'] and size <= 400000:
+            # the documented `skip` option: the first k objects are left out -- on every subscription of the observable
+            k = case['skip']
+            lo = rjson.load_from_file(f, compression=comp, encoding=enc, skip=k)
+            for n in (1, 2):
+                rk = drive.collect(lo)
+                H.require_clean(rk, 'load_from_file(skip=%d), subscription %d' % (k, n), **ctx)
+                compare(items[k:], rk.items, dict(ctx, skip=k, subscription=n))
         if case['open_obj'] and not (any('r' in m for m in opened) and any(('w' in m or 'a' in m or 'x' in m) for m in opened)):
             raise Violation('the custom open_obj was not used for both the dump and the load (modes seen: %r)' % opened, **ctx)
     finally:
